@@ -11,7 +11,9 @@ META = {
             "scope (nor spelled inside a template literal) are renamed, a token after `.`/`?.` and an object key are "
             "never touched and a shorthand property keeps its key. Only searched, not proved: that the minified "
             "program BEHAVES like the original — JavaScript semantics is not modelled; generated programs and the "
-            "shipped dashboard scripts are run/parsed under node 20 as written, minified, and minified with renaming). "
+            "shipped dashboard scripts are run/parsed under node 20 as written, minified, and minified with renaming; one "
+            "program family declares locals spelled like contextual keywords — get set of from as async await static let "
+            "yield target meta — next to the same words in their keyword role, as scripts and as ES modules). "
             "Model and code are tied by a differential run of tokenize/Minify/collectLocals/renameLocals against the "
             "model on a corpus, token soups, raw bytes, generated programs and every shipped lib/assets/dashboard/*.js.",
     "note": "trusted: Lean kernel; node 20 as the reference JavaScript engine; the correspondence harness. Meta-assumption "
@@ -36,7 +38,7 @@ REQUIRED = ["C33_relex", "C33_minify_relex", "C33_context_preserved", "C33_minif
 
 
 def run(ctx):
-    ctx.trusted += ["node v20 (vm.runInNewContext, --check) is the reference JavaScript engine",
+    ctx.trusted += ["node v20 (vm.runInNewContext, vm.SourceTextModule under --experimental-vm-modules, --check) is the reference JavaScript engine",
                     "translator: none; correspondence harness internal/util/javascript/zz_verif_c33*_test.go + egodriver C33"]
     ctx.assumptions += ["alpha-equivalence of JavaScript under consistent renaming of locally declared names (meta-assumption)",
                         "scripts are semicolon-terminated (no reliance on automatic semicolon insertion)"]
@@ -85,7 +87,8 @@ def run(ctx):
         "evaluations": len(cases) + 3 * c.get("programs", 0),
         "distinct_nontrivial": c.get("distinct_nontrivial", 0),
         "rule": "distinct generated/corpus programs that node accepts as written (each is run 3 ways: original, minified, "
-                "minified+renamed; output, error name and defined globals compared); tie lines: tok/min/col/ren/wf on corpus, "
+                "minified+renamed; output, error name and defined globals / module exports compared; counters.ctx_keyword_programs of them "
+                "use contextual keywords as local names, every third of those as an ES module); tie lines: tok/min/col/ren/wf on corpus, "
                 "shipped scripts, token soups, raw bytes and programs; wf_sources = sources whose token list meets the "
                 "well-formedness predicate of C33_relex",
         "wf_sources": n_wf,
